@@ -124,6 +124,26 @@ func runGateRule(w *World, r *Report, a *locAnchors, rule string, gates []gateSp
 	r.stat(rule+".functions_analysed", g.fnsAnalysed)
 	r.stat(rule+".ungated_sink_sites", g.sitesSeen)
 	r.stat(rule+".gate_tests", g.gateTestsSeen)
+	// thorough tier: second opinion with the CHA call graph (more edges, some infeasible): entries that are exposed only
+	// under CHA are recorded as information, never as violations
+	if w.CHA != nil && r.Tier == "thorough" {
+		vta := w.CG
+		w.CG = w.CHA
+		g2 := newGateEngine(w, gates, isSink, skip)
+		g2.solve()
+		extra := 0
+		check := func(fn *ssa.Function) {
+			if e2 := g2.exposes(fn); e2.exposed && !g.exposes(fn).exposed && !ungatedByDesign(rule, fn) {
+				extra++
+				r.info(rule, "cha-only entry="+fname(fn), e2.where, "exposed only under the CHA call graph (probably an infeasible dispatch): "+strings.Join(e2.chain, " -> "))
+			}
+		}
+		for _, m := range a.exportedLocationMethods() {
+			check(m)
+		}
+		w.CG = vta
+		r.stat(rule+".cha_only_exposures", extra)
+	}
 }
 
 func gateNames(gs []gateSpec) string {
